@@ -29,6 +29,7 @@ def resolve(t):
 def main():
     repo = Repo.from_disk(sys.argv[1] if len(sys.argv) > 1 else "/repo")
     out = {}
+    names = {}
     for h in inventory(repo):
         for t in h.targets:
             f = resolve(t)
@@ -43,8 +44,9 @@ def main():
                 if prm.default is not inspect._empty and type(prm.default) in (int, float, str, bool, type(None)):
                     d[p] = prm.default
             out[t] = d
+            names[t] = [p for p, prm in sig.parameters.items() if prm.kind not in (prm.VAR_POSITIONAL, prm.VAR_KEYWORD)]
     with open(os.path.join(VERIF, "spec", "numpy_defaults.json"), "w", encoding="utf-8") as f:
-        json.dump({"numpy_version": np.__version__, "defaults": out}, f, indent=0, sort_keys=True)
+        json.dump({"numpy_version": np.__version__, "defaults": out, "params": names}, f, indent=0, sort_keys=True)
     print(f"{len(out)} functions, numpy {np.__version__}")
 
 
